@@ -273,7 +273,8 @@ def gen_op(R: Draw, g: DocGen, lib: Any, doc_node: Any, kinds: list[str] | None 
             wt = R.choice(conts) if conts else rs.top
             wrappers = [[wt, g.attrs(R, "node", wt)]]
         if use:
-            for _ in range(6):
+            best = -1
+            for _ in range(10 if kind == "lift" else 6):
                 x, y = _positions(R, n, 12)
                 rng = quiet(lambda x=x, y=y: doc_node.resolve(x).block_range(doc_node.resolve(y)))
                 if rng is None:
@@ -281,8 +282,13 @@ def gen_op(R: Draw, g: DocGen, lib: Any, doc_node: Any, kinds: list[str] | None 
                 if kind == "lift":
                     t = quiet(lift_target, rng)
                     if t is not None:
-                        a, b, target = x, y, t
-                        break
+                        # prefer lifts over several levels out of the MIDDLE of their parents: both sides of every
+                        # crossed ancestor have to be split off (slices open by more than one level on both sides)
+                        score = 2 * min(rng.depth - t, 3) + (1 if rng.start_index > 0 else 0) + (1 if rng.end_index < rng.parent.child_count else 0)
+                        if score > best:
+                            best, a, b, target = score, x, y, t
+                        if best >= 7 or (best >= 0 and R.bool(0.25)):
+                            break
                 else:
                     wt = R.choice(conts) if conts else rs.top
                     attrs = g.attrs(R, "node", wt)
